@@ -183,6 +183,14 @@ func runC04(e *Env) {
 	var pays []*c04Payload
 	for i := 0; i < n; i++ {
 		size := e.PSize(c04Sizes, 66000)
+		if e.P(5) == 4 {
+			// just below, at and just above a power of two (buffer and scratch sizes tend to be powers of two, and a frame
+			// is its payload plus a few header bytes)
+			size = (1 << uint(3+e.P(14))) + e.P(19) - 12
+			if size < 0 {
+				size = 0
+			}
+		}
 		if spec.Kind == fkFixed {
 			size = spec.Fixed
 		} else if e.P(4) == 3 {
